@@ -961,12 +961,12 @@ func (e *Evaluator) evalBangOperatorExp(
 	right object.Object,
 	node ast.Node,
 ) object.Object {
-	switch right {
-	case FALSE:
-		return TRUE
-	case TRUE:
-		return FALSE
-	case NIL:
+	// compare by value: booleans and nil that come from
+	// the data are not the TRUE, FALSE and NIL singletons
+	switch right := right.(type) {
+	case *object.Bool:
+		return nativeBoolToBooleanObject(!right.Value)
+	case *object.Nil:
 		return TRUE
 	}
 
